@@ -7,6 +7,7 @@
 #include "common.hpp"
 #include "nmtools/array/index/pad.hpp"
 #include "nmtools/array/view/matmul.hpp"
+#include "nmtools/array/index/resize.hpp"
 using namespace ob;
 template <class T, size_t C> using svc = nmtools::utl::static_vector<T,C>;
 
@@ -109,3 +110,27 @@ SPL(1,2) SPL(1,1) SPL(1,3) SPL(2,4) SPL(2,2) SPL(2,3) SPL(2,5) SPL(3,6) SPL(3,5)
 #define MM(K,RA,RB) template void ob_c15_shape_matmul<K,RA,RB>(const mk_t<K,size_t,RA>&, const mk_t<K,size_t,RB>&);
 #define MMK(RA,RB) MM(k_std,RA,RB) MM(k_utl,RA,RB)
 MMK(2,2) MMK(1,2) MMK(2,1) MMK(3,2) MMK(2,3) MMK(3,3) MMK(3,1) MMK(1,3) MMK(4,2) MMK(4,3) MMK(3,4) MMK(4,4)
+
+// resize: the target shape is accepted exactly when it has the source's dimension and every extent is positive; the result is that shape
+template <class K, size_t R, size_t I>
+__attribute__((always_inline)) inline void resize_chain(const mk_t<K,size_t,R>& src, const mk_t<K,size_t,R>& dst)
+{
+    if constexpr (I == R) {
+        auto r = ix::shape_resize(src, dst);
+        OBLIGE("C15.resize.shape.value_when_every_extent_positive", static_cast<bool>(r), kid<K>, R);
+        if (r) for_<R>([&](auto J){ OBLIGE("C15.resize.shape.is_the_requested_shape", (size_t)nm::at(*r,J.value) == (size_t)rd<J.value>(dst), kid<K>, R, J.value); });
+    } else {
+        if ((size_t)rd<I>(dst) == 0) {
+            auto r = ix::shape_resize(src, dst);
+            OBLIGE("C15.resize.shape.nothing_when_an_extent_is_zero", !static_cast<bool>(r), kid<K>, R, I);
+        } else resize_chain<K,R,I+1>(src, dst);
+    }
+}
+template <class K, size_t R>
+void ob_c15_shape_resize(const mk_t<K,size_t,R>& src_, const mk_t<K,size_t,R>& dst_)
+{
+    const auto src = src_; const auto dst = dst_;
+    resize_chain<K,R,0>(src, dst);
+}
+#define RS(K,R) template void ob_c15_shape_resize<K,R>(const mk_t<K,size_t,R>&, const mk_t<K,size_t,R>&);
+RS(k_std,1) RS(k_std,2) RS(k_std,3) RS(k_std,4) RS(k_utl,2) RS(k_utl,3)
